@@ -25,7 +25,7 @@ var vC06Docs = []vDoc{
 	{Vec: []float32{1, 0}, Text: "alpha", Meta: map[string]interface{}{"s": "x"}},
 	{Vec: []float32{0, 1}, Text: "beta", Meta: map[string]interface{}{"s": "y"}},
 	{Vec: []float32{1, 0}}, // vector only (duplicate of doc 0's vector)
-	{Text: "alpha beta", Meta: map[string]interface{}{"s": "y"}}, // text + metadata only
+	{Text: "alpha \n beta", Meta: map[string]interface{}{"s": "y"}}, // text + metadata only; the line break is a token of its own
 	{Vec: []float32{1, 0, 0}, Text: "alpha", Meta: map[string]interface{}{"s": "x"}, Fail: "wrongdim"},
 	{Vec: []float32{3, 4}, Text: "gamma", Meta: map[string]interface{}{"s": "x", "bad": []int{1}}, Fail: "badmeta"},
 	{Vec: []float32{3, 4}, Text: "gamma", Meta: map[string]interface{}{"bad": []int{1}}, Fail: "badmeta"},
@@ -359,7 +359,7 @@ func (s *vHybSys) observe(h []string) {
 		}
 	}
 	if s.cfg.T {
-		for _, tok := range []string{"alpha", "beta", "gamma"} {
+		for _, tok := range []string{"alpha", "beta", "gamma", "\n"} {
 			want := map[uint32]bool{}
 			for id, md := range s.live {
 				if s.has(id, 'T') && strings.Contains(" "+vC06Docs[md.doc].Text+" ", " "+tok+" ") {
@@ -547,7 +547,7 @@ type vReaddSys struct {
 }
 
 var vReaddVecs = [][]float32{{1, 0}, {0, 1}, {3, 4}}
-var vReaddTexts = []string{"alpha", "beta", "gamma alpha"}
+var vReaddTexts = []string{"alpha", "beta \n alpha", "gamma alpha"} // (the second text holds a line break: a token of its own)
 var vReaddMeta = []map[string]interface{}{{"s": "x", "n": 1}, {"s": "y", "n": 2}, {"s": "z", "b": true}}
 
 func (s *vReaddSys) Reset() {
@@ -751,7 +751,7 @@ func (s *vReaddSys) observe(h []string) {
 			}
 		}
 	case s.tidx != nil:
-		for _, tok := range []string{"alpha", "beta", "gamma"} {
+		for _, tok := range []string{"alpha", "beta", "gamma", "\n"} {
 			s.c.Evaluations++
 			res, err := s.tidx.NewSearch().WithQuery(tok).WithK(-1).Execute()
 			if err != nil {
